@@ -5,7 +5,7 @@ use idlc_mir::{Interface, InterfaceNode};
 
 mod functions;
 
-use idlc_codegen_c::types::{change_const_primitive, change_primitive};
+use idlc_codegen_c::types::{change_primitive, const_expression};
 
 /// An in-class initialiser of a floating-point static member requires `constexpr`.
 const fn const_qualifier(primitive: idlc_mir::Primitive) -> &'static str {
@@ -35,12 +35,11 @@ pub fn emit_interface_impl(interface: &Interface) -> String {
             InterfaceNode::Const(c) => {
                 constants.push_str(&format!(
                     r#"
-    static {} {} {} = {}({});"#,
+    static {} {} {} = {};"#,
                     const_qualifier(c.r#type),
                     change_primitive(c.r#type),
                     c.ident,
-                    change_const_primitive(c.r#type),
-                    c.value
+                    const_expression(c.r#type, &c.value)
                 ));
             }
             InterfaceNode::Error(e) => {
@@ -73,12 +72,11 @@ pub fn emit_interface_impl(interface: &Interface) -> String {
             InterfaceNode::Const(c) => {
                 constants.push_str(&format!(
                     r#"
-    static {} {} {} = {}({});"#,
+    static {} {} {} = {};"#,
                     const_qualifier(c.r#type),
                     change_primitive(c.r#type),
                     c.ident,
-                    change_const_primitive(c.r#type),
-                    c.value
+                    const_expression(c.r#type, &c.value)
                 ));
             }
             InterfaceNode::Error(e) => {
